@@ -1,46 +1,123 @@
 """C09 -- awaitable queue: each item delivered exactly once, in order."""
+import os
+import re
+import threading
+
 import vlib
 from framework import graph_replay
 
 PROJ = ["destroyed", "fut", "items", "waiters", "npush", "npop", "ret"]
 ACTIONS = ["PushCS", "PushResolve", "PopCS", "UnblockCS", "UnblockResolve", "Destroy"]
+FORM_ORDER = ["one", "two", "zero", "copy", "cref", "move"]      # Queue.tla FormOrder
+MERGE = r"(PushResolve|UnblockResolve)$"
+
+
+def flat(v):
+    """Queue.tla item record -> projection: a plain int item (ctor "-": construction not recorded) is its identity"""
+    if isinstance(v, dict) and v.get("ctor") == "-":
+        return v["a"]
+    return v
+
+
+def proj(st):
+    d = vlib.project(st, PROJ)
+    d["items"] = [flat(x) for x in st["items"]]
+    d["fut"] = [{"st": f["st"], "v": flat(f["v"])} for f in st["fut"]]
+    return d
+
+
+def cfg_header(cfg):
+    """the constants of a cfg file that select the instantiation / argument forms the replayer has to use"""
+    txt = open(os.path.join(vlib.VERIF, "spec", "Queue", cfg)).read()
+
+    def const(name):
+        m = re.search(r"^\s*%s\s*=\s*(.*?)\s*$" % name, txt, re.M)
+        if not m:
+            raise vlib.MachineryError("constant %s missing in %s" % (name, cfg))
+        return m.group(1)
+    forms = set(re.findall(r'"(\w+)"', const("Forms")))
+    return {"void": const("Void") == "TRUE", "item": const("Obj") == "TRUE" and const("Void") != "TRUE",
+            "si": const("SingleItem") == "TRUE", "sw": const("SingleWaiter") == "TRUE",
+            "forms": [f for f in FORM_ORDER if f in forms]}
+
+
+def seq_replay(ctx, rp, cfg, tag, must_take, max_paths=None, extra_random=0, locks=("mutex",)):
+    base = cfg_header(cfg)
+
+    def hdr(k, st0):
+        h = dict(base)
+        h["mode"] = "coro" if k % 2 else "poll"
+        h["shift"] = int(st0["shift"])
+        # Lock template parameter: the same histories with primitives::no_lock on every third path
+        h["lock"] = locks[(k // 2) % len(locks)]
+        return h
+    return graph_replay(ctx, "Queue", "Queue", cfg, tag, rp, proj, header_fn=hdr, merge_re=MERGE, must_take=must_take,
+                        max_paths=max_paths, extra_random=extra_random)
+
+
+def compile_conc():
+    return vlib.compile_harness(vlib.VERIF + "/harness/queue_conc_replay.cpp", "queue_conc_replay",
+                                extra_flags=["-rdynamic"], sanitize=False)
 
 
 def run(ctx):
-    rp = vlib.compile_harness(vlib.VERIF + "/harness/queue_replay.cpp", "queue_replay", sanitize=not ctx.quick)
-    deep = {}
-    for void in (False, True):
-        cfg = ("Queue_seq_void" if void else "Queue_seq") + ("" if ctx.quick else "_deep") + ".cfg"
+    # the threaded replayer is built while the sequential part runs
+    bg = {}
 
-        def hdr(k, st0, void=void):
-            return {"void": void, "mode": "coro" if k % 2 else "poll"}
-        graph_replay(ctx, "Queue", "Queue", cfg, "seq_void" if void else "seq", rp, PROJ, header_fn=hdr,
-                     merge_re=r"(PushResolve|UnblockResolve)$", must_take=ACTIONS,
-                     constants=deep or None, extra_random=200 if ctx.quick else 2000)
-    # an item type whose constructor can throw: a failing push changes nothing, whichever branch it would have taken
-    graph_replay(ctx, "Queue", "Queue", "Queue_seq_item.cfg", "item", rp, PROJ, header_fn=lambda k, st0: {"void": False, "item": True, "mode": "coro" if k % 2 else "poll"},
-                 merge_re=r"(PushResolve|UnblockResolve)$", must_take=["PushCS", "PopCS", "PushThrow"], max_paths=1500 if ctx.quick else None)
+    def build():
+        try:
+            bg["rpc"] = compile_conc()
+        except BaseException as e:   # noqa: B902 -- re-raised on the main thread
+            bg["exc"] = e
+    th = threading.Thread(target=build, daemon=True)
+    th.start()
+    rp = vlib.compile_harness(vlib.VERIF + "/harness/queue_replay.cpp", "queue_replay", sanitize=not ctx.quick)
+    q = ctx.quick
+    # queue<int> / queue<void>, default containers; queue<int> pushes rotate over rvalue / lvalue / const lvalue / xvalue
+    for void in (False, True):
+        cfg = ("Queue_seq_void" if void else "Queue_seq") + ("" if q else "_deep") + ".cfg"
+        seq_replay(ctx, rp, cfg, "seq_void" if void else "seq", ACTIONS, extra_random=200 if q else 2000,
+                   locks=("mutex", "mutex", "none"))
+    # a class item type that records how it was constructed (and has an initializer-list constructor), pushed through
+    # every argument form of push(): the item stored / delivered is T(args...) whichever branch the push took; any of its
+    # constructors can throw: a failing push changes nothing, whichever branch it would have taken
+    seq_replay(ctx, rp, "Queue_seq_item.cfg", "item", ["PushCS", "PopCS", "PushThrow", "PushResolve"],
+               max_paths=2500 if q else None, locks=("mutex", "mutex", "none"))
+    # primitives::single_item_queue as the container of the parked pops (what generator_aggregator uses), of the items,
+    # of both: an element arriving at an occupied slot is refused (std::runtime_error) and nothing changes
+    single = [("Queue_seq_single_w.cfg", "single_w", ["PopRefused"]),
+              ("Queue_seq_single_i.cfg", "single_i", ["PushRefused"]),
+              ("Queue_seq_void_single_w.cfg", "void_single_w", ["PopRefused"]),
+              ("Queue_seq_item_single.cfg", "item_single", ["PopRefused", "PushRefused", "PushThrow"])]
+    if not q:
+        single.append(("Queue_seq_single.cfg", "single", ["PopRefused", "PushRefused"]))   # queue<int>, both slots single
+    for cfg, tag, must in single:
+        seq_replay(ctx, rp, cfg, tag, ["PushCS", "PopCS", "PushResolve", "UnblockResolve", "Destroy"] + must,
+                   max_paths=1500 if q else None, locks=("mutex", "none"))
     # long single-client histories (up to 20 pushes / 20 pops, the item store grows and shrinks repeatedly and its
     # read position moves): cheap on the specification (a few thousand states) and the only way to reach behaviour
     # that depends on the capacity of the underlying container (growth while wrapped, 4 -> 8 -> 16 -> 32)
     for void in (False, True):
-        def hdr2(k, st0, void=void):
-            return {"void": void, "mode": "coro" if k % 2 else "poll"}
-        graph_replay(ctx, "Queue", "Queue", "Queue_seq_void_long.cfg" if void else "Queue_seq_long.cfg", "long_void" if void else "long", rp, PROJ,
-                     header_fn=hdr2, merge_re=r"(PushResolve|UnblockResolve)$", must_take=["PushCS", "PopCS"],
-                     max_paths=600 if ctx.quick else None, extra_random=100 if ctx.quick else 1000)
-    conc_replay(ctx)
+        seq_replay(ctx, rp, "Queue_seq_void_long.cfg" if void else "Queue_seq_long.cfg", "long_void" if void else "long",
+                   ["PushCS", "PopCS"], max_paths=600 if q else None, extra_random=100 if q else 1000)
+    th.join()
+    if "exc" in bg:
+        raise bg["exc"]
+    conc_replay(ctx, rpc=bg["rpc"])
+    ctx.assume("primitives::single_item_queue: its comment calls a second element undefined behaviour, its code refuses it "
+               "with std::runtime_error (queue.h:77); the check holds the code to the refusal (the call fails, nothing changes)")
+    ctx.assume("item types: int, void and one class type (records its constructor, initializer-list constructor, throwing "
+               "constructors); containers: std_queue and single_item_queue; locks: std::mutex and no_lock (single thread only)")
 
 
-def conc_replay(ctx, tag="conc", max_paths_quick=1500):
+def conc_replay(ctx, tag="conc", max_paths_quick=1500, rpc=None):
     # all interleavings of client threads at critical-section grain, replayed on real threads: the queue's
     # std::mutex is virtual (interposed pthread layer), so the critical section and the promise resolution
     # that follows the unlock are separately scheduled
-    rpc = vlib.compile_harness(vlib.VERIF + "/harness/queue_conc_replay.cpp", "queue_conc_replay",
-                               extra_flags=["-rdynamic"], sanitize=False)
+    rpc = rpc or compile_conc()
 
     def cproj(st):
-        d = vlib.project(st, PROJ)
+        d = proj(st)
         d["pend"] = {t: ("idle" if p == "idle" else "resolve") for t, p in st["pc"].items()}
         return d
     threads = ["t1", "t2", "t3"]
